@@ -69,16 +69,37 @@ func c43(c *engine.Ctx) {
 	if f := c.MustFunc(P + "(*Channel).nextPacketMsg"); f != nil {
 		c43SendFraming(c, p, f, fSending, fMaxPay, fBytes, fEOF, fChID)
 	}
-	if f := c.MustFunc(P + "(*Channel).writePacketMsgTo"); f != nil {
-		info := f.Info()
-		np, objs := niBoundCall(f, P+"(*Channel).nextPacketMsg")
-		ok := false
-		for _, s := range f.CallsTo("tm2/pkg/amino.MarshalAnySizedWriter", "tm2/pkg/amino.MarshalSizedWriter") {
-			if np != nil && len(objs) == 1 && len(s.Call.Args) == 2 && engine.ObjOf(info, s.Call.Args[1]) == objs[0] && engine.ObjOf(info, s.Call.Args[0]) == paramObj(f, 0) && f.Graph().Dominates(np, s) {
-				ok = true
+	// the packet cut by nextPacketMsg is the one marshalled onto the wire — wherever that happens
+	// (Channel.writePacketMsgTo today; it may be inlined into its caller)
+	{
+		np := c.MustFunc(P + "(*Channel).nextPacketMsg")
+		nCut, nWritten := 0, 0
+		if np != nil {
+			sites, complete := c49CallersOf(p, np)
+			for _, cs := range sites {
+				nCut++
+				f := cs.Fn
+				info := f.Info()
+				objs := niAssignedFromCall(f, cs)
+				ok := false
+				for _, s := range f.CallsTo("tm2/pkg/amino.MarshalAnySizedWriter", "tm2/pkg/amino.MarshalSizedWriter") {
+					if len(s.Call.Args) != 2 {
+						continue
+					}
+					arg := ast.Unparen(s.Call.Args[1])
+					direct := arg == ast.Expr(cs.Call)
+					viaVar := len(objs) == 1 && objs[0] != nil && engine.ObjOf(info, arg) == objs[0] && f.Graph().Dominates(cs, s)
+					if direct || viaVar {
+						ok = true
+					}
+				}
+				if ok {
+					nWritten++
+				}
+				c.Check("send-framing", f.Root().Name+" writes the packet just cut", cs.Pos(), ok, "the marshalled value must be the result of nextPacketMsg()")
 			}
+			c.Check("send-framing", np.Name+" only called to be written", np.Pos(), complete && nCut >= 1 && nCut == nWritten, "every packet cut from the send slot must be marshalled to the connection")
 		}
-		c.Check("send-framing", f.Name+" writes the packet just cut", f.Pos(), ok, "the marshalled value must be the result of nextPacketMsg()")
 	}
 	// ---------- (5) dequeue ----------
 	c43Dequeue(c, p, fSending, fQueue)
@@ -131,17 +152,19 @@ func c43RecvAssembly(c *engine.Ctx, p *engine.Prog, f *engine.Fn, fRecving, fByt
 		c.Check(rule, f.Name+" appends packet.Bytes to recving", as.Pos(), okForm && s != nil, "")
 		okCap, why := false, "no `RecvMessageCapacity >= len(recving)+len(packet.Bytes)` fact holds at the append"
 		if s != nil {
-			for _, ft := range niFacts(g, s) {
-				cmp, ok := niAsCmp(ft)
+			// the test may sit in recvPacketMsg or in a private error helper whose nil result gates the append
+			for _, cf := range niFactsDeep(f, s, 2) {
+				cmp, ok := niAsCmp(cf.niFact)
 				if !ok {
 					continue
 				}
+				finfo := cf.Info()
 				for _, cm := range []niCmp{cmp, cmp.niFlip()} {
 					if cm.Op != token.GEQ {
 						continue
 					}
-					x, y := c43Resolve(f, cm.X), c43Resolve(f, cm.Y)
-					if !niSelField(info, x, fCap) {
+					x, y := c43Resolve(cf.Fn, cm.X), c43Resolve(cf.Fn, cm.Y)
+					if !niSelField(finfo, x, fCap) {
 						continue
 					}
 					be, isB := ast.Unparen(y).(*ast.BinaryExpr)
@@ -149,14 +172,19 @@ func c43RecvAssembly(c *engine.Ctx, p *engine.Prog, f *engine.Fn, fRecving, fByt
 						continue
 					}
 					a, b := be.X, be.Y
-					if niIsLenOfField(info, b, fRecving) {
+					if niIsLenOfField(finfo, b, fRecving) {
 						a, b = b, a
 					}
-					if niIsLenOfField(info, a, fRecving) && niIsLenOfField(info, b, fBytes) {
-						if len(niGateFacts(ft.Gate)) == 1 {
+					// the arriving bytes: len(packet.Bytes), possibly passed to the helper as an argument
+					arriving := niIsLenOfField(finfo, b, fBytes)
+					if ae, afn := cf.ArgOf(b); ae != nil {
+						arriving = niIsLenOfField(afn.Info(), ae, fBytes) && niMentionsObj(afn.Info(), ae, pkt)
+					}
+					if niIsLenOfField(finfo, a, fRecving) && arriving {
+						if len(niGateFacts(cf.Gate)) == 1 {
 							okCap, why = true, "append only when capacity >= bytes held + bytes arriving"
 						} else {
-							why = "capacity test is combined with another condition: `" + engine.ExprString(ft.Gate.Cond) + "`"
+							why = "capacity test is combined with another condition: `" + engine.ExprString(cf.Gate.Cond) + "`"
 						}
 					}
 				}
